@@ -11,6 +11,7 @@ import (
 	"reflect"
 	"runtime"
 	"sort"
+	"sync"
 	"time"
 )
 
@@ -362,10 +363,20 @@ func Pause(what string) {
 	checkAbort(t)
 }
 
+var freeWG sync.WaitGroup // workload threads started in free-running mode (race-detector pass)
+
 func spawn(f func(), daemon bool) {
 	e := E
 	if e == nil {
-		go f()
+		if daemon {
+			go f()
+			return
+		}
+		freeWG.Add(1)
+		go func() {
+			defer freeWG.Done()
+			f()
+		}()
 		return
 	}
 	p := e.cur
@@ -422,6 +433,7 @@ func Spawn(f func()) { spawn(f, false) }
 func Join() {
 	e := E
 	if e == nil {
+		freeWG.Wait()
 		return
 	}
 	me := e.cur
